@@ -77,7 +77,7 @@ async fn cell(set: Arc<CertSet>, state: String) -> Result<String, Fail> {
         "no-topic" => vec![],
         "publisher-only" => vec![("publisher", &t)],
         "subscriber-only" => vec![("subscriber", &t)],
-        "pubsub-idle" | "pubsub-after-traffic" | "pubsub-peers-gone" => vec![("subscriber", &t), ("publisher", &t)],
+        "pubsub-idle" | "pubsub-after-traffic" | "pubsub-peers-gone" | "registration-parked" => vec![("subscriber", &t), ("publisher", &t)],
         "replier-only" => vec![("replier", &t)],
         "requestor-only" => vec![("requestor", &t)],
         "reqrep-both" | "reqrep-rejected-replier" => vec![("replier", &t), ("requestor", &t)],
@@ -102,6 +102,16 @@ async fn cell(set: Arc<CertSet>, state: String) -> Result<String, Fail> {
             let _ = held[idx].send(Frame::Message(MessagePayload { headers: None, message: Bytes::from(format!("m{i}").into_bytes()) })).await;
         }
     }
+    let mut parked = None;
+    if state == "registration-parked" {
+        // a peer that grants no credit on its stream registers on the live topic: the handler of
+        // that stream is stuck answering it (holding whatever it holds) when the signal arrives
+        let zc = RawConn::connect_with_window(addr, &set.ca, Some(&set.client), 0).await.map_err(|e| setup("zero-window connect", e.to_string()))?;
+        let mut s = zc.open().await.map_err(|e| setup("open", e.to_string()))?;
+        s.send(reg("subscriber", &t)).await.map_err(|e| setup("send registration", e.to_string()))?;
+        tokio::time::sleep(Duration::from_millis(200)).await;
+        parked = Some((zc, s));
+    }
     if state == "pubsub-peers-gone" {
         held.clear();
         tokio::time::sleep(Duration::from_millis(100)).await;
@@ -125,6 +135,7 @@ async fn cell(set: Arc<CertSet>, state: String) -> Result<String, Fail> {
         }
     };
     drop(held);
+    drop(parked);
     let _ = std::fs::remove_dir_all(&dir);
     match status {
         None => {
@@ -151,7 +162,7 @@ async fn cell(set: Arc<CertSet>, state: String) -> Result<String, Fail> {
 }
 
 fn cells() -> Vec<Value> {
-    ["no-topic", "publisher-only", "subscriber-only", "pubsub-idle", "pubsub-after-traffic", "pubsub-peers-gone", "replier-only", "requestor-only", "reqrep-both", "reqrep-rejected-replier", "everything"]
+    ["no-topic", "publisher-only", "subscriber-only", "pubsub-idle", "pubsub-after-traffic", "pubsub-peers-gone", "replier-only", "requestor-only", "reqrep-both", "reqrep-rejected-replier", "everything", "registration-parked"]
         .iter()
         .enumerate()
         .map(|(i, s)| json!({"cell": i, "state_at_sigint": s}))
@@ -175,7 +186,7 @@ pub async fn run(tier: &str, replaying: bool) -> ! {
     finish(
         rep,
         outs,
-        "the real server in a child process, brought by raw peers into each of 11 states (no topic; publisher only; subscriber only; idle pub/sub; pub/sub right after a burst of traffic; pub/sub whose peers have left; replier only; requestor only; both; a rejected second replier; pub/sub and request/reply topics together), then SIGINT: the process must exit with status 0 within 20 s",
+        "the real server in a child process, brought by raw peers into each of 12 states (no topic; publisher only; subscriber only; idle pub/sub; pub/sub right after a burst of traffic; pub/sub whose peers have left; replier only; requestor only; both; a rejected second replier; pub/sub and request/reply topics together; a registration whose answer cannot be written because the peer grants no flow-control credit), then SIGINT: the process must exit with status 0 within 20 s",
         "complements the router-level exploration of C16 (close at every point of every schedule) with Server::shutdown itself: close_channel on every topic, join of all router tasks, endpoint close",
         json!({}),
         replaying,
